@@ -17,6 +17,11 @@ ALL = ["C%02d" % i for i in range(1, 21)]
 
 def sweep_one(sid):
     seed = os.path.join(HERE, "seeded", sid)
+    try:
+        if json.load(open(os.path.join(seed, "meta.json"))).get("retired"):
+            return sid, None, "retired: " + json.load(open(os.path.join(seed, "meta.json")))["retired"][:80]
+    except (OSError, ValueError):
+        pass
     base = tempfile.mkdtemp(prefix="cifsa-sweep-", dir=os.environ.get("TMPDIR", "/tmp"))
     try:
         shutil.copytree("/repo/src", os.path.join(base, "src"),
